@@ -31,6 +31,16 @@ CLAIMED["C12"] = dict(
     note="Trusts the reference model (its constants are themselves checked against defining equations in the self-test) and the hook read-out wrappers.",
     technique="exhaustive enumeration of a finite space against a reference model (generated scalars select each table entry through the public API)",
     design="3/C12")
+CLAIMED["C06"] = dict(
+    text="Generated-input search against a transcription of RFC 9496 on integers plus the group-theoretic definition of equality (P1-P2 in E[4]): decoder by rejection class (only 'negative s' is covered by the suite), re-encoding, the one-way map on chosen inputs incl. solved-for exceptional r, histories, equality vs encoding equality, batched double-and-compress with identity-coset members, all scalar-mul wrappers, and through the hook the four internal representatives of an element and the Elligator map on raw representations. Six back-end builds. Exploration level.",
+    note="Trusts the model's RFC 9496 transcription (self-tested on the RFC's small multiples, Elligator, one-way-map and bad-encoding vectors).",
+    technique="property-based testing (proptest) against an RFC transcription; metamorphic representative injection through the hook",
+    design="3/C06")
+CLAIMED["C07"] = dict(
+    text="Generated-input search against the RFC 7748 ladder transcribed on integers (cross-checked through the Edwards model for the base point): byte-level X25519 for clamping-relevant k and u of every class (0, 1, -1, non-canonical, bit 255, small order, twist), typed ephemeral/reusable/static Diffie-Hellman driven by a byte-fed RNG, MontgomeryPoint*Scalar, the bit-string ladder, clamped/base variants, to_edwards for every sign byte, to_montgomery on all point classes, equality/Hash mod p, contributory flag, the Ed25519-to-X25519 key conversions. Six back-end builds. Exploration level.",
+    note="Trusts the reference model; SHA-512 from sha2 on both sides for the Ed25519 conversion.",
+    technique="property-based testing (proptest) against an RFC 7748 transcription",
+    design="3/C07")
 
 ALL = ["C%02d" % i for i in range(1, 18)]
 REASON_PENDING = "check not built yet (see DESIGN.md build order); not claimed"
